@@ -19,8 +19,16 @@ Grammar sent to `drv_hashtext`:
     KEY b ...                                                              identity in the variant tree
     OBS <hex of MDF.raw of the variant> <sha256 hex base> <sha256 hex variant>
     END
-The driver answers CORR (model text == MDF.raw), TEXT <hex> (hashed here with hashlib and compared with MDF.hash)
-and PROP C13.
+The driver answers CORR (model text == MDF.raw), CORR (the model's own SHA-256 of that text == MDF.hash), TEXT <hex>
+(hashed here with hashlib and compared with MDF.hash a second time), HASH <model digest> <model hash32> and PROP C13.
+
+SHA-256 alone (Model/Sha256.lean against hashlib):
+    CASE <id> / SHA <2 hex per byte | -> <hashlib hexdigest> / END         bytes as given
+    CASE <id> / SHAT <6 hex per character | -> <hashlib hexdigest of text.encode()> / END   through the model's UTF-8
+The four outputs and the sender:
+    CASE <id> / DEF ... / OUTS <hex of MDF.raw> <MDF.hash> <py|-> <c|-> <js|-> <m|-> <v1,v2,..|-> / END    (hex numbers)
+answered by CORR (text), CORR (digest), CORR (model hash32 == int(MDF.hash[:8],16)), CORR (model hash32 == every value
+found) and PROP C13 (`Spec/HashText.lean: judgeOutputs` on the values found).
 """
 from __future__ import annotations
 
@@ -552,6 +560,72 @@ def run_pairs(jobs: List[Tuple], procs: Optional[int] = None) -> List[Dict[str, 
 
 
 # --------------------------------------------------------------------------------------------------
+# SHA-256 of the model against hashlib
+# --------------------------------------------------------------------------------------------------
+
+NIST_VECTORS = [      # FIPS 180-4 / NIST CSRC "SHA-256 example" messages and CAVP short-message edge lengths
+    b"", b"abc", b"abcdbcdecdefdefgefghfghighijhijkijkljklmklmnlmnomnopnopq",
+    b"abcdefghbcdefghicdefghijdefghijkefghijklfghijklmghijklmnhijklmnoijklmnopjklmnopqklmnopqrlmnopqrsmnopqrstnopqrstu",
+    bytes([0xbd]), bytes.fromhex("c98c8e55"), bytes(55), bytes(56), bytes(57), bytes(64), bytes(1000), b"A" * 1000, b"U" * 1005,
+]
+NIST_DIGESTS = {      # written out (not recomputed) for the classic ones: hashlib itself is checked against them
+    b"": "e3b0c44298fc1c149afbf4c8996fb92427ae41e4649b934ca495991b7852b855",
+    b"abc": "ba7816bf8f01cfea414140de5dae2223b00361a396177a9cb410ff61f20015ad",
+    b"abcdbcdecdefdefgefghfghighijhijkijkljklmklmnlmnomnopnopq": "248d6a61d20638b8e5c026930c3e6039a33ce45964ff2167f6ecedd419db06c1",
+    b"abcdefghbcdefghicdefghijdefghijkefghijklfghijklmghijklmnhijklmnoijklmnopjklmnopqklmnopqrlmnopqrsmnopqrstnopqrstu":
+        "cf5b16a778af8380036ce59e7b0492370b249b11e8f07a51afac45037afee9d1",
+    bytes([0xbd]): "68325720aabd7c82f30f554b313d0570c95accbb7dc4b5aae11204c08ffe732b",
+    bytes.fromhex("c98c8e55"): "7abc22c0ae5af26ce93dbb94433a0e0b2e119d014f8e7f65bd56c61ccccd9504",
+    bytes(55): "02779466cdec163811d078815c633f21901413081449002f24aa3e80f0b88ef7",
+    bytes(56): "d4817aa5497628e7c77e6b606107042bbba3130888c5f47a375e6179be789fbb",
+    bytes(57): "65a16cb7861335d5ace3c60718b5052e44660726da4cd13bb745381b235a1785",
+    bytes(64): "f5a5fd42d16a20302798ef6ed309979b43003d2320d9f0e8ea9831a92759fb4b",
+    bytes(1000): "541b3e9daa09b20bf85fa273e5cbd3e80185aa4ec298e765db87742b70138a53",
+    b"A" * 1000: "c2e686823489ced2017f6059b8b239318b6364f6dcd835d0a519105a1eadd6e4",
+    b"U" * 1005: "f4d62ddec0f3dd90ea1380fa16a5ff8dc4c54b21740650f24afc4120903552b0",
+}
+MILLION_A = "cdc76e5c9914fb9281a1c7e284d73e67f1809a48a497200e046d39ccc7112cd0"
+
+
+def sha_cases(rng, n_random: int, big: bool) -> List[Tuple[str, str, Any]]:
+    """(kind, tag, payload): kind "b" = bytes, "t" = text (encoded by the model's own UTF-8)"""
+    out: List[Tuple[str, str, Any]] = [("b", "nist", v) for v in NIST_VECTORS]
+    for n in range(0, 200):                                   # every length across three block boundaries
+        out.append(("b", "len", bytes(rng.randrange(256) for _ in range(n))))
+    for _ in range(n_random):
+        n = rng.choice([rng.randrange(0, 80), rng.randrange(0, 300), rng.randrange(0, 2000)])
+        out.append(("b", "random", bytes(rng.randrange(256) for _ in range(n))))
+    pools = ["abcXYZ019_ :\n#", "\u00e9\u00df\u00f1\u0416\u03a9\u05d0", "\u20ac\u4e2d\u6587\uffee\u0800\uffff", "\U0001f600\U00010000\U0010ffff\U0002a6d6"]
+    for _ in range(max(50, n_random // 4)):
+        k = rng.randrange(0, 60)
+        pool = "".join(rng.sample(pools, rng.randint(1, 4)))
+        out.append(("t", "text", "".join(rng.choice(pool) for _ in range(k))))
+    for t in ["\x7f\x80\u07ff\u0800\uffff\U00010000", "\x00"]:
+        out.append(("t", "utf8_boundaries", t))
+    if big:
+        out.append(("b", "nist_million_a", b"a" * 1000000))
+    return out
+
+
+def sha_lines(cases) -> Tuple[List[str], Dict[str, Dict[str, Any]]]:
+    lines: List[str] = []
+    meta: Dict[str, Dict[str, Any]] = {}
+    for k, (kind, tag, v) in enumerate(cases):
+        cid = f"sha{k}"
+        data = v if kind == "b" else v.encode()
+        want = hashlib.sha256(data).hexdigest()
+        if kind == "b" and v in NIST_DIGESTS and NIST_DIGESTS[v] != want:
+            raise C.MachineryError(f"hashlib disagrees with the published digest of {v[:16]!r}")
+        if tag == "nist_million_a" and want != MILLION_A:
+            raise C.MachineryError("hashlib disagrees with the published digest of one million 'a'")
+        body = (data.hex() or "-") if kind == "b" else (_hex(v) or "-")
+        lines += [f"CASE {cid}", f"{'SHA' if kind == 'b' else 'SHAT'} {body} {want}", "END"]
+        meta[cid] = {"tag": "sha:" + tag, "kind": kind, "hex": data.hex() if len(data) <= 400 else data[:64].hex() + "...",
+                     "len": len(data), "hashlib": want}
+    return lines, meta
+
+
+# --------------------------------------------------------------------------------------------------
 # the four language outputs and the sender's header (light check, C13's last two sentences)
 # --------------------------------------------------------------------------------------------------
 
@@ -623,7 +697,7 @@ def outputs_check(tree: Dict[str, Any], names: List[str]) -> Dict[str, Any]:
                 rtma_compile([str(root)], str(outd), "gen_defs", python=True, javascript=True, matlab=True, c_lang=True)
             finally:
                 logging.disable(logging.NOTSET)
-        res: Dict[str, Any] = {n: {"parser": int(want[n][:8], 16), "full": want[n]} for n in names}
+        res: Dict[str, Any] = {n: {"parser": int(want[n][:8], 16), "full": want[n], "raw": p.message_defs[n].raw} for n in names}
         ctext = (outd / "gen_defs.h").read_text()
         jtext = (outd / "gen_defs.js").read_text()
         mtext = "\n".join(q.read_text() for q in outd.rglob("*.m"))
